@@ -119,15 +119,23 @@ def _gen(job):
     return seen
 
 
+def check_witness(data, show=False):
+    g = list(data["witness"]["group"])
+    g[4] = "dp" if g[0] > 10 else "search"
+    out = _group(tuple(g))
+    if "oracle_mismatch" in out:
+        R.harness_error("oracles disagree on replay: %s" % out["oracle_mismatch"])
+    if show:
+        print("replaying group %s: costs(eighths)=%s optimum(H,R,D)=%s" % (g, out.get("cost"), out.get("opt")))
+    return [((C.variant(cfg), pred), {"group": out["job"], "config": cfg}, detail, "group") for pred, cfg, detail in out["viol"]]
+
+
 def run(prop, args):
     rep = R.Report(prop, args, RULE)
     if args.replay:
-        data = R.load_replay(args.replay)
-        out = _group(tuple(data["witness"]["group"]))
         rep.evaluations = 1
-        print("replaying group %s: costs(eighths)=%s optimum(H,R,D)=%s" % (data["witness"]["group"], out.get("cost"), out.get("opt")))
-        for pred, cfg, detail in out["viol"]:
-            rep.add_violation((C.variant(cfg), pred), {"group": out["job"], "config": cfg}, detail, kind="group")
+        for b, w, d, k in check_witness(R.load_replay(args.replay), show=True):
+            rep.add_violation(b, w, d, kind=k)
         return rep.finish()
     tier = args.tier
     if tier == "quick":
@@ -163,6 +171,7 @@ def run(prop, args):
             rep.count("regions", "disk-written")
         for pred, cfg, detail in out["viol"]:
             rep.add_violation((C.variant(cfg), pred), {"group": out["job"], "config": cfg}, detail, kind="group")
+    R.run_regress(rep, check_witness)
     rep.assumptions = ["optimum over all schedules established by exhaustive search for n<=%d; beyond that by DP validated against the search" % NS,
                        "costs on the dyadic grid k/8 (library float arithmetic exact, comparisons without tolerance); arbitrary floats not generated"]
 
